@@ -780,7 +780,8 @@ func (db *RockDB) GetRange(key []byte, start int64, end int64) ([]byte, error) {
 	start, end = getRange(start, end, valLen)
 
 	if start > end {
-		return nil, nil
+		// an empty range (or a missing key) is the empty string, not nil (as redis does)
+		return []byte{}, nil
 	}
 	return value[start : end+1], nil
 }
